@@ -4,6 +4,7 @@ mod fw;
 mod obs;
 mod props;
 mod refcalc;
+mod refdb;
 mod tables;
 mod units;
 
@@ -39,6 +40,13 @@ fn main() {
             let nshards = std::env::var("VH_SHARDS").ok().and_then(|s| s.parse().ok()).unwrap_or(16);
             let code = fw::run_parent(prop.as_ref(), fw::RunOpts { tier, nshards, deadline_s: deadline });
             std::process::exit(code);
+        }
+        "dbdump" => {
+            let cs = refdb::constants();
+            println!("{} constants; sources {:?}", cs.len(), refdb::source_ids());
+            for c in cs.iter().take(args.get(2).and_then(|s| s.parse().ok()).unwrap_or(5)) {
+                println!("{:?} | {:?} | {:?} | {:?} | {:?}", c.tokens, c.description, c.source, c.value.as_ref().map(|v| v.to_string()), c.unit);
+            }
         }
         "profiles" => {
             let prop = props::find(args.get(2).map(|s| s.as_str()).unwrap_or("")).unwrap_or_else(|| usage());
